@@ -288,7 +288,7 @@ class Exec:
         if LS_METHODS[name] != cty:
             raise Unsupported("LeastSquares::%s used at type %s, the solver model offers %s" % (name[2:], cty, LS_METHODS[name]))
         self.fargs[name] = cty
-        return "(%s M)" % name if cty != "Ls" else "(%s M)" % name
+        return "(%s M)" % name
 
     def freevar(self, name, cty):
         if name in self.free:
